@@ -8,7 +8,7 @@
    C08_one_constraint discharges all of them for a PCBO holding an objective and one comparison constraint;
    C08_reduced continues through degree reduction (C01) and convert_solution. *)
 From QV.Model Require Import Base Matrix Arith Expr Extrema Sat PCBO Convert Reduce.
-From QV.Proofs Require Import BaseProofs KeyProofs ArithProofs InvProofs ConvertProofs PenaltyArith PCBOProofs ReduceProofs WorkflowProofs.
+From QV.Proofs Require Import BaseProofs KeyProofs ArithProofs InvProofs ConvertProofs PenaltyArith PCBOProofs ReduceProofs WorkflowProofs WorkflowSeq.
 Open Scope Q_scope.
 
 Theorem C08_abstract : forall (f : env -> Q) (n : nat) (G : nat -> env -> Q) (lam : nat -> Q) (R : nat -> env -> Prop)
@@ -56,6 +56,24 @@ Theorem C08_reduced : forall r m Pin lam lt b m' w t W x0 out deg l pairs D s,
   rel_prop r (pv xs) /\ (forall x, boolean_env x -> rel_prop r (pv x) -> f xs <= f x) /\ eval s (tm D) == f xs.
 Proof. exact workflow_reduced. Qed.
 Print Assumptions C08_reduced.
+
+(* any number of comparison constraints on one PCBO (any relations / branches / log_trick / bounds), none warned
+   unsatisfiable (run_ok), every weight above the spread of the objective: every minimiser of the penalised model over
+   all variables and ancillas satisfies all constraints, minimises the objective among the feasible assignments, and the
+   minimum is that constrained optimum.  All hypotheses of the abstract theorem are discharged: per-constraint penalties by
+   C02_constraint, independence from later ancillas by C02_ancilla_bound / C02_later. *)
+Theorem C08_sequence : forall cs m m' W x0 xs,
+  run_ok m cs = Ok m' -> bkind (kd m) -> no_anc (tm m) -> Forall call_ok cs ->
+  let f := fun x => eval x (tm m) in
+  (forall x x', boolean_env x -> boolean_env x' -> f x - f x' <= W) ->
+  (forall c, In c cs -> W < cc_lam c) ->
+  boolean_env x0 -> (forall c, In c cs -> cR c x0) ->
+  boolean_env xs -> (forall x, boolean_env x -> eval xs (tm m') <= eval x (tm m')) ->
+  (forall c, In c cs -> cR c xs) /\
+  (forall x, boolean_env x -> (forall c, In c cs -> cR c x) -> f xs <= f x) /\
+  eval xs (tm m') == f xs.
+Proof. exact workflow_seq. Qed.
+Print Assumptions C08_sequence.
 
 (* non-vacuity: minimise -x0 - x1 - x2 subject to x0 + x1 + x2 - 2 <= 0 with weight 4 > 3 = spread *)
 Example C08_example :
